@@ -480,28 +480,28 @@ theorem safe_descFirst (hmt : MtSafe mt) (m : Method) (t : Str) (g : Gen Res) (h
 
 /-- In an Array-of-Hashes (nulls accepted) every element is a dict or null. -/
 def AohOk (aoh : Bool) (l : List NC) : Prop :=
-  aoh = true → ∀ x ∈ l, x.1.isNull = true ∨ ∃ a es, x.1 = .map a es
+  aoh = true → ∀ x ∈ l, x.1.evIsNull = true ∨ ∃ a es, x.1 = .map a es
 
-theorem aohOk_seqKids (c : Ctx) : ∀ (items : List Node) (i : Nat), AohOk (isAoh items) (seqKidsFrom c items i) := by
+theorem aohOk_seqKids (c : Ctx) : ∀ (items : List Node) (i : Nat), AohOk (ev_isAoh items) (seqKidsFrom c items i) := by
   intro items
   induction items with
   | nil => intro i _ x hx; simp [seqKidsFrom] at hx
   | cons n ns ih =>
     intro i h x hx
-    simp only [isAoh, List.all_cons, Bool.and_eq_true] at h
+    simp only [ev_isAoh, List.all_cons, Bool.and_eq_true] at h
     simp only [seqKidsFrom, List.mem_cons] at hx
     cases hx with
     | inl hx =>
       subst hx
       cases n with
       | map a es => exact Or.inr ⟨a, es, rfl⟩
-      | scalar a v => cases v <;> simp_all [Node.isNull]
+      | scalar a v => cases v <;> simp_all [Node.evIsNull]
       | seq => simp at h
       | set => simp at h
-    | inr hx => exact ih (i + 1) (by simpa [isAoh] using h.2) x hx
+    | inr hx => exact ih (i + 1) (by simpa [ev_isAoh] using h.2) x hx
 
 theorem safe_searchElem (hmt : MtSafe mt) (hd : DscSafe dsc) (m : Method) (attr term : Str) (aoh : Bool) (x : NC)
-    (hx : aoh = true → x.1.isNull = true ∨ ∃ a es, x.1 = .map a es) :
+    (hx : aoh = true → x.1.evIsNull = true ∨ ∃ a es, x.1 = .map a es) :
     SafeR (searchElem mt dsc m attr term aoh x) := by
   intro e he
   unfold searchElem at he
